@@ -519,10 +519,11 @@ def _fb_make(V, adaptive, scheme, upd, n, fixcom, power, custom_masses, restart_
         fb.masses_scaling_power = 0.4
     if custom_masses:
         fb.update_masses(np.array([[30.0, 60.0, 90.0], [100.0, 110.0, 45.0], [70.0, 20.0, 50.0]][:n]))
-    if sym and isinstance(fb._masses_scaling_power, np.ndarray) and fb._masses_scaling_power.dtype == object:
-        # the numpy shim builds object arrays; concrete contents go back to float64 so that np.power takes
-        # numpy's float loop on both sides (Python's float pow differs from it in the last bit)
-        fb._masses_scaling_power = fb._masses_scaling_power.astype(float)
+    pw = fb.masses_scaling_power
+    if sym and isinstance(pw, np.ndarray) and pw.dtype == object:
+        # the numpy shim builds object arrays; concrete contents go back to float64 (through the public setter) so
+        # that np.power takes numpy's float loop on both sides (Python's float pow differs from it in the last bit)
+        fb.masses_scaling_power = pw.astype(float)
     return fb, atoms
 
 
